@@ -80,6 +80,10 @@ pub fn inputs_seq(tier: Tier, seq_len: usize) -> Inputs {
         nb.extend(single_edit_neighbours(d, &MARKERS));
     }
     let sequences = dedup_docs(token_sequences(&tokens(), seq_len));
+    // all short strings over a 10-symbol alphabet (arbitrary inputs)
+    let mut sequences = sequences;
+    sequences.extend(mc_core::generic::all_strings(b"12 \n;sort", tier.pick(4, 6)));
+    let sequences = dedup_docs(sequences);
     Inputs { corpus, neighbours: dedup_docs(nb), sequences }
 }
 
